@@ -368,6 +368,7 @@ func (P) Generate(g *core.Gen) {
 	genHetero(g)
 	genPositionSweep(g)
 	genLowHeight(g)
+	genSeqBits(g)
 }
 
 func genIndependent(g *core.Gen) {
@@ -1494,5 +1495,40 @@ func genLowHeight(g *core.Gen) {
 		pg.randomPool(poolOpts{n: g.R.Intn(5), childProb: 30, maxFee: 60000, anyKind: true})
 		s := pg.finish(true)
 		g.Case("low-height", true, s.line())
+	}
+}
+
+// genSeqBits: every single bit of the 32-bit sequence number of a version-2
+// input (bits 0-15 relative lock value, 16-21 and 23-30 unused, 22 type, 31
+// disable), on an output of varying age, alone or as the first / middle / last
+// of three inputs.
+func genSeqBits(g *core.Gen) {
+	for bit := 0; bit < 32; bit++ {
+		if !g.Thorough() && (bit+int(g.Seed))%2 == 1 && bit > 3 && bit != 16 && bit != 22 && bit != 31 {
+			continue
+		}
+		pg := newPoolGen(g.R, 0)
+		var ins []inRef
+		pos := bit % 3
+		for k := 0; k < 3; k++ {
+			u := pg.pick(func(u utxo) bool { return pg.spendable(u) && !u.cb && u.kind == 'T' })
+			r := pg.ref(u)
+			r.hasSeq, r.seq = true, 0xffffffff
+			if k == pos {
+				r.seq = 1 << uint(bit)
+				if bit == 22 {
+					r.mtpPrev = pg.s.mtpAt(int(pg.w.catalog[u].height) - 1)
+				}
+			}
+			ins = append(ins, r)
+		}
+		if bit%4 == 0 {
+			ins = ins[pos : pos+1]
+		}
+		j := pg.add(ins, []byte{'T', 'K'}, g.R.Range(1000, 50000))
+		pg.s.txs[j].ver = 2
+		pg.s.txs[j].allMax = false
+		s := pg.finish(true)
+		g.Case("seq-bits", true, s.line())
 	}
 }
